@@ -12,7 +12,7 @@ The contract: for sorted inputs the result is the sorted merge (same multiset: E
 EQ(right, ., v) for every v), s_1[1] grows by exactly INVS, s_2[0] by exactly EQS, nothing else changes.
 The recursion `__mergesortlike` and the per-ranking glue `__cost_by_ranking` are decided by the bounded tier.
 """
-from pyvc.types import Int, Arr
+from pyvc.types import Int, Arr, SetList
 
 F = "corankco/kemeny_score_computation.py::KemenyComputingFactory."
 
@@ -138,6 +138,7 @@ def register(reg):
         notes="counting merge of the n log n Kemeny-score routine",
     )
     register_runs(reg)
+    register_missing(reg)
 
 
 def runs_harness(raw):
@@ -215,4 +216,96 @@ def register_runs(reg):
         },
         gen=gen_runs, rt_harness=runs_harness,
         notes="run-length count of the pairs of one input bucket that the consensus orders (fragment: body of the loop)",
+    )
+
+
+def missing_harness(raw):
+    """the real __cost_by_ranking on a consensus whose bucket k has sizes[k] elements, the input ranking holding (in one
+    bucket per consensus bucket) the first sizes[k] - t_3[k] of them: entries s_1[5], s_2[3], s_2[5] of the returned
+    vectors are written by the loop under contract only, from 0 (the frame clauses are T1 only)"""
+    from corankco.kemeny_score_computation import KemenyComputingFactory
+    from corankco.ranking import Ranking
+    from corankco.element import Element
+    sizes, t_3 = raw["sizes"], raw["t_3"]
+    if not sizes or any(t > s_ or s_ < 1 for t, s_ in zip(t_3, sizes)):
+        return None
+    cons, present, nxt = [], [], 0
+    for s_, t in zip(sizes, t_3):
+        b = list(range(nxt, nxt + s_))
+        nxt += s_
+        cons.append(set(b))
+        if s_ - t > 0:
+            present.append(set(b[:s_ - t]))
+    if raw.get("shuffle"):
+        present = present[::-1]
+    consensus = Ranking(cons)
+    mapping = {Element(e): k for k in range(len(cons)) for e in cons[k]}
+    r_input = Ranking(present)
+    fn = getattr(KemenyComputingFactory, "_KemenyComputingFactory__cost_by_ranking")
+    s_1, s_2 = fn(consensus, mapping, r_input)
+    tot = sum(t_3)
+    g = {"card": len}
+    return [dict(g, ranking_consensus=cons, t_3=list(t_3), nb_missing_remaining=tot,
+                 s_1=[0, 0, 0, 0, 0, int(s_1[5])], s_2=[0, 0, 0, int(s_2[3]), 0, int(s_2[5])],
+                 old=(lambda x: [0] * 6 if isinstance(x, list) else tot))]
+
+
+def gen_missing(rng):
+    nb = rng.randint(1, 5)
+    sizes = [rng.randint(1, 4) for _ in range(nb)]
+    return {"sizes": sizes, "t_3": [rng.randint(0, s_) for s_ in sizes], "shuffle": rng.random() < 0.5}
+
+
+def register_missing(reg):
+    """the loop of __cost_by_ranking over the buckets of the consensus (missing-element counts): with t_3[i] the number of
+    elements of consensus bucket i that the input ranking lacks, and nb_missing_remaining their total,
+       s_1[5] grows by the number of pairs (x in bucket i, y in a later bucket), both missing  = sum_i t_3[i] * (total - sum_{j<=i} t_3[j])
+       s_2[3] grows by the number of pairs of one bucket with exactly one of the two missing  = sum_i (|bucket i| - t_3[i]) * t_3[i]
+       s_2[5] grows by the number of pairs of one bucket, both missing                        = sum_i t_3[i] * (t_3[i] - 1) / 2
+    and no other counter changes.  How t_3 is obtained (set difference, dict lookups) is outside the fragment (bounded)."""
+    T = dict(t=Arr(Int), n=Int)
+    reg.spec("def TSUM(t, n):\n    return 0 if n <= 0 else TSUM(t, n - 1) + t[n - 1]", T, Int)
+    reg.spec("def BOTH_MISSING_ORDERED(t, n, tot):\n    return 0 if n <= 0 else BOTH_MISSING_ORDERED(t, n - 1, tot) + "
+             "t[n - 1] * (tot - TSUM(t, n))", dict(t=Arr(Int), n=Int, tot=Int), Int)
+    reg.spec("def ONE_MISSING_TIED(R, t, n):\n    return 0 if n <= 0 else ONE_MISSING_TIED(R, t, n - 1) + "
+             "(card(R[n - 1]) - t[n - 1]) * t[n - 1]", dict(R=SetList(), t=Arr(Int), n=Int), Int)
+    # twice the number of pairs: keeps the specification free of division
+    reg.spec("def BOTH_MISSING_TIED2(t, n):\n    return 0 if n <= 0 else BOTH_MISSING_TIED2(t, n - 1) + "
+             "t[n - 1] * (t[n - 1] - 1)", T, Int)
+    # x * (x - 1) is even: TRI(x) = 0 + 1 + ... + (x - 1) is its half (needed for the float division by 2 stored in s_2[5])
+    reg.spec("def TRI(x):\n    return 0 if x <= 0 else TRI(x - 1) + (x - 1)", dict(x=Int), Int)
+    reg.lemma("tri_even", dict(x=Int), "x * (x - 1) == 2 * TRI(x)", props=["C01"], induction="x", base="0")
+    reg.lemma("tri_half", dict(x=Int), "x * (x - 1) / 2 == TRI(x)", props=["C01"], requires={"nn": "0 <= x"}, hints=["tri_even(x)"])
+    N = "len(ranking_consensus)"
+    reg.contract(
+        F + "__cost_by_ranking#missing", props=["C01"],
+        fragment={"loop": 5},
+        params=dict(ranking_consensus=SetList(), t_3=Arr(Int), nb_missing_remaining=Int, s_1=Arr(Int), s_2=Arr(Int)),
+        requires={
+            "sizes": "len(t_3) == %s and len(s_1) == 6 and len(s_2) == 6" % N,
+            "counts": "forall(lambda i: 0 <= t_3[i], 0, len(t_3))",
+            "total": "nb_missing_remaining == TSUM(t_3, len(t_3))",
+        },
+        modifies=["s_1", "s_2"],
+        ensures={
+            "both_missing_ordered": "s_1[5] == old(s_1)[5] + BOTH_MISSING_ORDERED(t_3, len(t_3), old(nb_missing_remaining))",
+            "one_missing_tied": "s_2[3] == old(s_2)[3] + ONE_MISSING_TIED(ranking_consensus, t_3, len(t_3))",
+            "both_missing_tied": "2 * s_2[5] == 2 * old(s_2)[5] + BOTH_MISSING_TIED2(t_3, len(t_3))",
+            "frame_s1": "forall(lambda k: implies(k != 5, s_1[k] == old(s_1)[k]), 0, 6)",
+            "frame_s2": "forall(lambda k: implies(k != 3 and k != 5, s_2[k] == old(s_2)[k]), 0, 6)",
+        },
+        loops={
+            9: dict(snap={"tot0": "nb_missing_remaining"}, inv={
+                "remaining": "nb_missing_remaining == tot0 - TSUM(t_3, idx_consensus_i)",
+                "both_missing_ordered": "s_1[5] == old(s_1)[5] + BOTH_MISSING_ORDERED(t_3, idx_consensus_i, tot0)",
+                "one_missing_tied": "s_2[3] == old(s_2)[3] + ONE_MISSING_TIED(ranking_consensus, t_3, idx_consensus_i)",
+                "both_missing_tied": "2 * s_2[5] == 2 * old(s_2)[5] + BOTH_MISSING_TIED2(t_3, idx_consensus_i)",
+                "frame_s1": "forall(lambda k: implies(k != 5, s_1[k] == old(s_1)[k]), 0, 6)",
+                "frame_s2": "forall(lambda k: implies(k != 3 and k != 5, s_2[k] == old(s_2)[k]), 0, 6)",
+            }),
+        },
+        gen=gen_missing, rt_harness=missing_harness,
+        int_witness={"s_2[5]": "s_2[5] + TRI(t_3[idx_consensus_i])"},
+        hints={9: ["implies(idx_consensus_i < len(t_3), tri_even(t_3[idx_consensus_i]) and tri_half(t_3[idx_consensus_i]))"]},
+        notes="missing-element pair counts of one input ranking (fragment: the loop over the buckets of the consensus)",
     )
